@@ -170,7 +170,7 @@ void orc_c03_quiescent() {
             VIOL("C03", "C03:oneshot-still-registered", "module slot %d reports %ld registered sources, %ld are expected after its one-shot source(s) fired", s.idx, got, want);
     }
     // a blocking loop polls again only while it has a reason to keep running
-    if (!W->loops.empty() && !W->loops.back().ended && W->loops.back().blocking) {
+    if (W->quiescent_real && !W->loops.empty() && !W->loops.back().ended && W->loops.back().blocking) {
         oracle_eval("C03.loop-continues-only-with-reason");
         LoopRun &lr = W->loops.back();
         int running = 0;
